@@ -318,7 +318,7 @@ def hyp_shard(rec, shard):
 
 
 def main(ctx):
-    n = 600 if ctx.tier == 'quick' else 20000
+    n = 1600 if ctx.tier == 'quick' else 20000
     w = 5 if ctx.tier == 'quick' else 16
     ctx.pmap('hyp_shard', [('roundtrip', k, n // w) for k in range(w)] +
              [('refusal', k, n // (2 * w)) for k in range(w)] +
